@@ -151,6 +151,7 @@ class P:
 # ---------------------------------------------------------------------------------------------------
 class Sem:
     """Evaluation of expressions over an environment name -> z3 bv, per IEEE 1364-2005 5.4/5.5."""
+    local_blocking = False      # set while a clocked block is run on a private copy of the environment
     def __init__(self, mod): self.m = mod
     def selfw(self, e):
         k = e[0]
@@ -282,7 +283,11 @@ class Sem:
             for x in s[1]: self.run(x, pend, env, guard)
         elif k == "assign":
             _, kind, l, r = s
-            self.store(l, self.rhs(r, self.lw(l), env), pend, env, guard)
+            if kind == "b" and self.local_blocking:
+                # blocking assignment inside a procedural block: visible to the statements that follow (env is the block's private copy)
+                self.store(l, self.rhs(r, self.lw(l), env), env, env, guard)
+            else:
+                self.store(l, self.rhs(r, self.lw(l), env), pend, env, guard)
         elif k == "if":
             c = self.cond(s[1], env)
             self.run(s[2], pend, env, c if guard is None else z3.And(guard, c))
